@@ -246,6 +246,11 @@ func (x *Xlat) anchoredAsserts(st *State, fr *Frame, s ast.Stmt, when string) {
 		if c := x.bump("assert:" + nm); c > 1 {
 			nm = fmt.Sprintf("%s@%d", nm, c)
 		}
+		if x.lock == nil && !st.dead() {
+			// vacuity guard: the anchor is reachable before the assertion is taken as a fact
+			o := x.emit(st, nm+".cover", "cover", TFalse, s.Pos(), "the anchor of the assertion is reachable (must NOT be unsat)")
+			o.Cover = true
+		}
 		x.emit(st, nm, "assert", g, s.Pos(), "assertion "+when+" \""+a.Anchor+"\": "+a.Text)
 		st.assume(g)
 	}
